@@ -80,6 +80,7 @@ UNITS += [
               [dict(name="no_upper_clamp", where="body:rv_sampleGaussian", rx=r"else if \(v > bounds_\.high\[i\]\)\s*v = bounds_\.high\[i\];", repl="")]),
 ]
 
+UNITS.append(D.wrapper_unit("c08_wrapper_forwarders"))
 ASSUMPTIONS = D.FP_ASSUMPTIONS + ["valid-state samplers: states are abstract objects with ghost (version, approved-version, in-bounds); component contracts assumed: state samplers yield in-bounds states, interpolate of in-bounds states is in bounds (C07), checkMotion from a valid s1 leaves a valid in-bounds last-valid state (C05.c); the validity checker is deterministic",
     "compound: components are addressed by index; each component space/sampler is assumed to satisfy its own contract (enforce => satisfies, sampled => in bounds); <= 1e6 components",
     "Time: 'unchanged' (C08.a) is stated for states inside [min,max]; satisfiesBounds' epsilon slack lets enforceBounds clamp a state that exceeds a bound by <= epsilon"]
